@@ -155,3 +155,106 @@ Theorem C15_horner_rounding_bound_binary64 : forall (c : list R) (x : R), c <> [
      Rabs (vr - pval c x) <= gamma eps64 (2 * n) * abs_poly c x + 2 * eta64 * (1 + gamma eps64 (2 * n)) * geo (Rabs x) n).
 Proof. exact poly_eval_round_binary64. Qed.
 Print Assumptions C15_horner_rounding_bound_binary64.
+
+(* ================================================================ END-TO-END ROUNDING ERROR OF THE GENERATED TRAJECTORIES
+   (C15/TrajRound.v).  Same standard model as above (overflow excluded).  Here the COEFFICIENTS are computed by the
+   generator with every operation rounded and then position / velocity (/ acceleration) are evaluated at t = ts with every
+   operation rounded - the model terms of a_trajpoly3_gen, a_trajpoly3_pos, a_trajpoly3_vel (and the quintic ones)
+   instantiated at Rnd_ops rnd - and compared with the REQUESTED end values.  For every rounding with eps <= 2^-20 (and
+   eta <= 1), every duration ts <> 0 and all real boundary data (not required to be representable):
+       cubic    |pos(ts) - p1| <= 120 eps S        + 48  eta (1+1/|ts|)^3 (1+|ts|)^3 W
+                |vel(ts) - v1| <= 240 eps S / |ts| + 192 eta (1+1/|ts|)^3 (1+|ts|)^2 W
+                S = |p0| + |p1| + |ts| (|v0| + |v1|),   W = 1 + |p1 - p0| + |v0| + |v1|
+   (sharper weighted form: C15_traj3_end_rounding_weighted; per coefficient: C15_traj3_coeff_rounding).  The integer
+   constants 1, -2, 3, 2 of the formulas are rounded by the model (ofZ) and accounted for.  At t = 0 the outputs are
+   rnd p0 and rnd v0, i.e. exactly p0 and v0 when these are numbers of the format (C15_traj3_start_exact).
+   Quintic (C15_traj5_end_rounding_bound): 1056 eps S5, 3960 eps S5/|ts|, 11880 eps S5/|ts|^2 for position, velocity,
+   acceleration, under the additional hypothesis rnd 2 = 2 (the divisor of the constant 1/2; true for binary64).
+   NOT proved: the septic generator; the step from the rounded-real term to the C's binary64 run (as before).
+   Non-vacuity: TrajRound.traj3_end_id (identity rounding: end values exact), traj3_end_scale20 (the inexact model
+   rnd v = v (1 + 2^-20) satisfies all hypotheses), traj3_end_binary64_ex (binary64, ts = 2, 0 -> 10: within 2^-40). *)
+From LibaV Require Import C15.TrajRound.
+
+Theorem C15_traj3_end_rounding_bound : forall (rnd : R -> R) (eps eta : R), std_model rnd eps eta -> eps <= / 1048576 -> eta <= 1 ->
+  forall ts p0 p1 v0 v1, ts <> 0 ->
+  let c := trajpoly3_gen (Rnd_ops rnd) ts p0 p1 v0 v1 in
+  exists pr vr, traj_pos (Rnd_ops rnd) c ts = Some pr /\ traj_vel (Rnd_ops rnd) c ts = Some vr /\
+    Rabs (pr - p1) <= 120 * eps * (Rabs p0 + Rabs p1 + Rabs ts * (Rabs v0 + Rabs v1))
+                      + 48 * eta * ((1 + / Rabs ts) ^ 3 * (1 + Rabs ts) ^ 3 * (1 + Rabs (p1 - p0) + Rabs v0 + Rabs v1)) /\
+    Rabs (vr - v1) <= 240 * eps * ((Rabs p0 + Rabs p1 + Rabs ts * (Rabs v0 + Rabs v1)) / Rabs ts)
+                      + 192 * eta * ((1 + / Rabs ts) ^ 3 * (1 + Rabs ts) ^ 2 * (1 + Rabs (p1 - p0) + Rabs v0 + Rabs v1)).
+Proof. exact traj3_end_rounding_bound. Qed.
+Print Assumptions C15_traj3_end_rounding_bound.
+
+Theorem C15_traj3_end_rounding_bound_binary64 : forall ts p0 p1 v0 v1, ts <> 0 ->
+  exists pr vr,
+    traj_pos (Rnd_ops rnd64) (trajpoly3_gen (Rnd_ops rnd64) ts p0 p1 v0 v1) ts = Some pr /\
+    traj_vel (Rnd_ops rnd64) (trajpoly3_gen (Rnd_ops rnd64) ts p0 p1 v0 v1) ts = Some vr /\
+    Rabs (pr - p1) <= 120 * eps64 * (Rabs p0 + Rabs p1 + Rabs ts * (Rabs v0 + Rabs v1))
+                      + 48 * eta64 * ((1 + / Rabs ts) ^ 3 * (1 + Rabs ts) ^ 3 * (1 + Rabs (p1 - p0) + Rabs v0 + Rabs v1)) /\
+    Rabs (vr - v1) <= 240 * eps64 * ((Rabs p0 + Rabs p1 + Rabs ts * (Rabs v0 + Rabs v1)) / Rabs ts)
+                      + 192 * eta64 * ((1 + / Rabs ts) ^ 3 * (1 + Rabs ts) ^ 2 * (1 + Rabs (p1 - p0) + Rabs v0 + Rabs v1)).
+Proof. exact traj3_end_rounding_bound_binary64. Qed.
+Print Assumptions C15_traj3_end_rounding_bound_binary64.
+
+(* the sharper form: 20 eps times the weighted magnitude the algebra gives, in terms of |p1 - p0| *)
+Theorem C15_traj3_end_rounding_weighted : forall (rnd : R -> R) (eps eta : R), std_model rnd eps eta -> eps <= / 1048576 -> eta <= 1 ->
+  forall ts p0 p1 v0 v1, ts <> 0 ->
+  let c := trajpoly3_gen (Rnd_ops rnd) ts p0 p1 v0 v1 in
+  exists pr vr, traj_pos (Rnd_ops rnd) c ts = Some pr /\ traj_vel (Rnd_ops rnd) c ts = Some vr /\
+    Rabs (pr - p1) <= 20 * eps * (Rabs p0 + 5 * Rabs (p1 - p0) + Rabs ts * (4 * Rabs v0 + 2 * Rabs v1))
+                      + 48 * eta * ((1 + / Rabs ts) ^ 3 * (1 + Rabs ts) ^ 3 * (1 + Rabs (p1 - p0) + Rabs v0 + Rabs v1)) /\
+    Rabs (vr - v1) <= 20 * eps * (8 * Rabs v0 + 5 * Rabs v1 + 12 * (Rabs (p1 - p0) / Rabs ts))
+                      + 192 * eta * ((1 + / Rabs ts) ^ 3 * (1 + Rabs ts) ^ 2 * (1 + Rabs (p1 - p0) + Rabs v0 + Rabs v1)).
+Proof. exact traj3_end_rounding_weighted. Qed.
+Print Assumptions C15_traj3_end_rounding_weighted.
+
+(* the two computed coefficients against the exact ones (c0 = p0 and c1 = v0 are stored as given) *)
+Theorem C15_traj3_coeff_rounding : forall (rnd : R -> R) (eps eta : R), std_model rnd eps eta -> eps <= / 1048576 -> eta <= 1 ->
+  forall ts p0 p1 v0 v1, ts <> 0 ->
+  exists c2h c3h c2 c3,
+    trajpoly3_gen (Rnd_ops rnd) ts p0 p1 v0 v1 = [p0; v0; c2h; c3h] /\ trajpoly3_gen R_ops ts p0 p1 v0 v1 = [p0; v0; c2; c3] /\
+    Rabs (c2h - c2) <= 11 * eps * ((2 * Rabs v0 + Rabs v1) / Rabs ts + 3 * Rabs (p1 - p0) / Rabs ts ^ 2)
+                       + 34 * eta * ((1 + / Rabs ts) ^ 2 * (1 + Rabs ts) ^ 0 * (1 + Rabs (p1 - p0) + Rabs v0 + Rabs v1)) /\
+    Rabs (c3h - c3) <= 14 * eps * ((Rabs v0 + Rabs v1) / Rabs ts ^ 2 + 2 * Rabs (p1 - p0) / Rabs ts ^ 3)
+                       + 48 * eta * ((1 + / Rabs ts) ^ 3 * (1 + Rabs ts) ^ 0 * (1 + Rabs (p1 - p0) + Rabs v0 + Rabs v1)).
+Proof. exact traj3_coeff_rounding. Qed.
+Print Assumptions C15_traj3_coeff_rounding.
+
+Theorem C15_traj3_start_exact : forall (rnd : R -> R) (eps eta : R), std_model rnd eps eta ->
+  forall ts p0 p1 v0 v1,
+  let c := trajpoly3_gen (Rnd_ops rnd) ts p0 p1 v0 v1 in
+  nth 0 c 0 = p0 /\ nth 1 c 0 = v0 /\
+  traj_pos (Rnd_ops rnd) c 0 = Some (rnd p0) /\ traj_vel (Rnd_ops rnd) c 0 = Some (rnd v0) /\
+  (rnd p0 = p0 -> traj_pos (Rnd_ops rnd) c 0 = Some p0) /\ (rnd v0 = v0 -> traj_vel (Rnd_ops rnd) c 0 = Some v0).
+Proof. exact traj3_start_exact. Qed.
+Print Assumptions C15_traj3_start_exact.
+
+(* quintic: position, velocity and acceleration at the end time; rnd 2 = 2 for the divisor of the constant 1/2 *)
+Theorem C15_traj5_end_rounding_bound : forall (rnd : R -> R) (eps eta : R), std_model rnd eps eta -> eps <= / 1048576 -> eta <= 1 ->
+  rnd 2 = 2 ->
+  forall ts p0 p1 v0 v1 a0 a1, ts <> 0 ->
+  let c := trajpoly5_gen (Rnd_ops rnd) ts p0 p1 v0 v1 a0 a1 in
+  let S := Rabs p0 + Rabs p1 + Rabs ts * (Rabs v0 + Rabs v1) + Rabs ts ^ 2 * (Rabs a0 + Rabs a1) in
+  exists pr vr ar, traj_pos (Rnd_ops rnd) c ts = Some pr /\ traj_vel (Rnd_ops rnd) c ts = Some vr /\ traj_acc (Rnd_ops rnd) c ts = Some ar /\
+    Rabs (pr - p1) <= 1056 * eps * S
+      + 1664 * eta * ((1 + / Rabs ts) ^ 5 * (1 + Rabs ts) ^ 5 * (1 + Rabs (p1 - p0) + Rabs v0 + Rabs v1 + Rabs a0 + Rabs a1)) /\
+    Rabs (vr - v1) <= 3960 * eps * (S / Rabs ts)
+      + 9984 * eta * ((1 + / Rabs ts) ^ 5 * (1 + Rabs ts) ^ 4 * (1 + Rabs (p1 - p0) + Rabs v0 + Rabs v1 + Rabs a0 + Rabs a1)) /\
+    Rabs (ar - a1) <= 11880 * eps * (S / Rabs ts ^ 2)
+      + 49920 * eta * ((1 + / Rabs ts) ^ 5 * (1 + Rabs ts) ^ 3 * (1 + Rabs (p1 - p0) + Rabs v0 + Rabs v1 + Rabs a0 + Rabs a1)).
+Proof. exact traj5_end_rounding_bound. Qed.
+Print Assumptions C15_traj5_end_rounding_bound.
+
+Theorem C15_traj5_end_rounding_bound_binary64 : forall ts p0 p1 v0 v1 a0 a1, ts <> 0 ->
+  let c := trajpoly5_gen (Rnd_ops rnd64) ts p0 p1 v0 v1 a0 a1 in
+  let S := Rabs p0 + Rabs p1 + Rabs ts * (Rabs v0 + Rabs v1) + Rabs ts ^ 2 * (Rabs a0 + Rabs a1) in
+  exists pr vr ar, traj_pos (Rnd_ops rnd64) c ts = Some pr /\ traj_vel (Rnd_ops rnd64) c ts = Some vr /\ traj_acc (Rnd_ops rnd64) c ts = Some ar /\
+    Rabs (pr - p1) <= 1056 * eps64 * S
+      + 1664 * eta64 * ((1 + / Rabs ts) ^ 5 * (1 + Rabs ts) ^ 5 * (1 + Rabs (p1 - p0) + Rabs v0 + Rabs v1 + Rabs a0 + Rabs a1)) /\
+    Rabs (vr - v1) <= 3960 * eps64 * (S / Rabs ts)
+      + 9984 * eta64 * ((1 + / Rabs ts) ^ 5 * (1 + Rabs ts) ^ 4 * (1 + Rabs (p1 - p0) + Rabs v0 + Rabs v1 + Rabs a0 + Rabs a1)) /\
+    Rabs (ar - a1) <= 11880 * eps64 * (S / Rabs ts ^ 2)
+      + 49920 * eta64 * ((1 + / Rabs ts) ^ 5 * (1 + Rabs ts) ^ 3 * (1 + Rabs (p1 - p0) + Rabs v0 + Rabs v1 + Rabs a0 + Rabs a1)).
+Proof. exact traj5_end_rounding_bound_binary64. Qed.
+Print Assumptions C15_traj5_end_rounding_bound_binary64.
